@@ -7,6 +7,7 @@ import (
 	"math/rand"
 	"os"
 	"path/filepath"
+	"sort"
 	"strings"
 	"sync"
 
@@ -51,15 +52,12 @@ func faultScenarios() []scen {
 	return s
 }
 
-// fastState digests exactly the files that carry the property's observables. Equal
-// fast states imply equal observables; unequal ones are decided by git (slow path).
-func fastState(dir string, tracked []string) map[string]string {
+// fastState digests the files that carry the property's observables (.git/HEAD,
+// packed-refs, index, refs/heads/**) and every worktree file. Equal fast states imply
+// equal observables; unequal ones are decided by git (slow path).
+func fastState(dir string) map[string]string {
 	m := map[string]string{}
-	dig := func(key, p string) {
-		fi, err := os.Lstat(p)
-		if err != nil {
-			return
-		}
+	dig := func(key, p string, fi os.FileInfo) {
 		switch {
 		case fi.Mode()&os.ModeSymlink != 0:
 			t, _ := os.Readlink(p)
@@ -72,24 +70,40 @@ func fastState(dir string, tracked []string) map[string]string {
 			}
 			h := sha256.Sum256(b)
 			m[key] = fmt.Sprintf("F%o:%s", fi.Mode().Perm()&0o100, hex.EncodeToString(h[:8]))
+		case fi.IsDir():
+			m[key] = "D"
 		default:
 			m[key] = "T:" + fi.Mode().Type().String()
 		}
 	}
 	for _, f := range []string{"HEAD", "packed-refs", "index"} {
-		dig(".git/"+f, filepath.Join(dir, ".git", f))
+		p := filepath.Join(dir, ".git", f)
+		if fi, err := os.Lstat(p); err == nil {
+			dig(".git/"+f, p, fi)
+		}
 	}
 	filepath.Walk(filepath.Join(dir, ".git", "refs", "heads"), func(p string, info os.FileInfo, err error) error {
 		if err != nil || info.IsDir() || strings.HasSuffix(p, ".lock") {
 			return nil
 		}
 		rel, _ := filepath.Rel(dir, p)
-		dig(rel, p)
+		dig(rel, p, info)
 		return nil
 	})
-	for _, t := range tracked {
-		dig("wt:"+t, filepath.Join(dir, filepath.FromSlash(t)))
-	}
+	filepath.Walk(dir, func(p string, info os.FileInfo, err error) error {
+		if err != nil || p == dir {
+			return nil
+		}
+		rel, _ := filepath.Rel(dir, p)
+		if rel == ".git" {
+			if info.IsDir() {
+				return filepath.SkipDir
+			}
+			return nil
+		}
+		dig("wt:"+rel, p, info)
+		return nil
+	})
 	return m
 }
 
@@ -139,15 +153,14 @@ func countLocks(dir string) int {
 func runFaults(c *vf.Ctx, g *gitx.Git, bases []*wtlab.Base, only string) {
 	only = strings.TrimPrefix(only, ":")
 	sc := faultScenarios()
-	inst := c.N(1, 6)
-	budget := c.N(2000, 40000)
+	inst := c.N(1, 4)
+	budget := c.N(1500, 16000)
 	type instance struct {
 		k   caseT
 		dir string
 		res resolved
 		pre state
 		fp  map[string]string
-		trk []string
 		n   int
 	}
 	var insts []*instance
@@ -190,13 +203,10 @@ func runFaults(c *vf.Ctx, g *gitx.Git, bases []*wtlab.Base, only string) {
 			return
 		}
 		in := &instance{k: k, dir: dir, res: res, pre: observe(g, dir)}
-		for p := range in.pre.S.Index {
-			in.trk = append(in.trk, strings.SplitN(p, "#", 2)[0])
-		}
-		in.fp = fastState(dir, in.trk)
+		in.fp = fastState(dir)
 		// fault-free run on a copy
 		run := dir + "-rec"
-		if err := gitx.CopyDir(dir, run); err != nil {
+		if err := wtlab.CopyTree(dir, run); err != nil {
 			c.Broken("copy: %v", err)
 			return
 		}
@@ -244,16 +254,27 @@ func runFaults(c *vf.Ctx, g *gitx.Git, bases []*wtlab.Base, only string) {
 		k  int
 	}
 	var jobs []job
-	per := budget / len(insts)
-	for _, in := range insts {
+	// budget: small executions are enumerated fully, the remainder is shared by the large ones
+	sort.Slice(insts, func(i, j int) bool {
+		if insts[i].n != insts[j].n {
+			return insts[i].n < insts[j].n
+		}
+		return insts[i].k.I < insts[j].k.I
+	})
+	remaining := budget
+	for ii, in := range insts {
+		per := remaining / (len(insts) - ii)
 		stride := 1
 		if in.n > per {
 			stride = (in.n + per - 1) / per
 		}
 		off := int(c.Seed) % stride
+		cnt := 0
 		for k := off; k < in.n; k += stride {
 			jobs = append(jobs, job{in, k})
+			cnt++
 		}
+		remaining -= cnt
 		if stride == 1 {
 			c.Count("executions_fully_enumerated", 1)
 		}
@@ -262,7 +283,7 @@ func runFaults(c *vf.Ctx, g *gitx.Git, bases []*wtlab.Base, only string) {
 		j := jobs[ji]
 		in := j.in
 		dir := filepath.Join(c.Scratch, fmt.Sprintf("fR%d", ji))
-		if err := gitx.CopyDir(in.dir, dir); err != nil {
+		if err := wtlab.CopyTree(in.dir, dir); err != nil {
 			c.Broken("copy: %v", err)
 			return
 		}
@@ -309,7 +330,7 @@ func runFaults(c *vf.Ctx, g *gitx.Git, bases []*wtlab.Base, only string) {
 		if n := countLocks(dir); n > 0 {
 			c.Count("leftover_lock_files_after_failed_call", n)
 		}
-		if sameFast(in.fp, fastState(dir, in.trk)) {
+		if sameFast(in.fp, fastState(dir)) {
 			c.Count("faulted_calls_state_unchanged", 1)
 			c.Eval(vf.ShapeHash(in.k.Label, fop.Kind, pathClass(fop.Path), "unchanged"), true)
 			return
@@ -326,19 +347,33 @@ func runFaults(c *vf.Ctx, g *gitx.Git, bases []*wtlab.Base, only string) {
 		if ji%211 == 0 {
 			c.Sample(map[string]any{"case": in.k, "fault_at": j.k, "faulted_op": fop.String(), "error": fmt.Sprint(opErr), "changed": set})
 		}
-		key := "fault:" + in.k.Label + ":" + strings.Join(set, "+")
 		if os.Getenv("VERIF_DEBUG_LOSS") != "" {
 			fmt.Printf("FAULT %s k=%d op=%s err=%v changed=%v detail=%q\n", in.k.Label, j.k, fop.String(), opErr, set, det)
 		}
-		c.Fail(key, fmt.Sprintf("%s (cur=c%d tgt=c%d): filesystem call #%d %s failed with EIO, the call returned %q, but %s changed: %s",
-			in.k.Label, in.k.Cur, in.k.Tgt, j.k, fop.String(), opErr, strings.Join(set, "+"), strings.Join(det, "; ")),
-			map[string]any{"case": in.k, "fault_at": j.k, "faulted_op": fop, "error": fmt.Sprint(opErr), "changed": set, "detail": det})
+		// one key per (operation, observable that changed): git itself is not atomic under I/O errors either,
+		// so the set of observables a particular fault point reaches is not a separate finding
+		folded := map[string]bool{}
+		for _, ob := range set {
+			switch {
+			case strings.HasPrefix(ob, "branch-") || ob == "refs-unreadable":
+				ob = "branch"
+			case strings.HasPrefix(ob, "index"):
+				ob = "index"
+			}
+			if folded[ob] {
+				continue
+			}
+			folded[ob] = true
+			c.Fail("fault:"+in.k.Label+":"+ob, fmt.Sprintf("%s (cur=c%d tgt=c%d): filesystem call #%d %s failed with EIO, the call returned %q, but the observable state changed (%s): %s",
+				in.k.Label, in.k.Cur, in.k.Tgt, j.k, fop.String(), opErr, strings.Join(set, "+"), strings.Join(det, "; ")),
+				map[string]any{"case": in.k, "fault_at": j.k, "faulted_op": fop, "error": fmt.Sprint(opErr), "changed": set, "detail": det})
+		}
 	})
 	if only == "" {
-		c.Floor("faults injected", c.Counter("faults_injected"), c.N(1200, 20000))
-		c.Floor("faulted calls that returned an error", c.Counter("faulted_calls_returning_error"), c.N(600, 10000))
-		c.Floor("recorded executions", c.Counter("recorded_executions"), c.N(14, 80))
+		c.Floor("faults injected", c.Counter("faults_injected"), c.N(1000, 10000))
+		c.Floor("faulted calls that returned an error", c.Counter("faulted_calls_returning_error"), c.N(500, 5000))
+		c.Floor("recorded executions", c.Counter("recorded_executions"), c.N(14, 60))
 		c.Floor("distinct fs-op kinds faulted", c.SeenCount("faulted_fs_op_kinds"), 10)
-		c.Floor("faulted calls that left the state unchanged", c.Counter("faulted_calls_state_unchanged"), c.N(200, 3000))
+		c.Floor("faulted calls that left the state unchanged", c.Counter("faulted_calls_state_unchanged"), c.N(150, 1500))
 	}
 }
